@@ -467,7 +467,9 @@ func (w *world) seekAll(slot int, data bool) {
 	})
 }
 
-// sweep performs every region seek and a full read on every open file.
+// sweep performs every region seek and a full read on every open file,
+// then grows the file to the maximum and reads again, which shows what
+// was stored beyond the end of the file.
 func (w *world) sweep() {
 	for s := 1; s <= nSlots; s++ {
 		if w.files[s] == nil {
@@ -476,6 +478,10 @@ func (w *world) sweep() {
 		w.observe(s)
 		w.seekAll(s, true)
 		w.seekAll(s, false)
+		if !w.dead {
+			w.opTrunc(s, w.cfg.MO)
+			w.observe(s)
+		}
 	}
 }
 
@@ -831,7 +837,7 @@ func enumDomains(level int) []*enumDomain {
 			writeOffs: []int{0, 2, 3, 5}, writeLens: []int{1, 3, 4}, truncs: []int{0, 1, 3, 4, 6, 9}, pat: []byte{201, 202, 0, 204, 205}, patSize: 6,
 		},
 		{
-			name: "ss2-quota", cfg: config{SS: 2, NSec: 3, MO: 5, Quota: true, MF: 1, MB: 3}, slots: 2, depth: d(3, 4),
+			name: "ss2-quota", cfg: config{SS: 2, NSec: 3, MO: 5, Quota: true, MF: 2, MB: 3}, slots: 2, depth: d(3, 4),
 			writeOffs: []int{0, 2}, writeLens: []int{1, 3}, truncs: []int{0, 2, 4}, pat: []byte{201, 0}, patSize: 2,
 		},
 		{
@@ -897,6 +903,7 @@ func TestAllocator(t *testing.T) {
 	tr := common.NewTrace("trace.ndjson")
 	defer tr.Close()
 	counts := []int{1, 2, 5, 63, 64, 65, 127, 128, 129, 130, 192, 200}
+	interesting := []int{1, 2, 3, 31, 32, 33, 62, 63, 64, 65, 66, 126, 127, 128, 129, 130}
 	for i := 0; i < traces; i++ {
 		rng := common.Rand(int64(100000 + i))
 		nsec := counts[rng.Intn(len(counts))]
@@ -910,7 +917,7 @@ func TestAllocator(t *testing.T) {
 				case r < 5:
 					m := 1 + rng.Intn(nsec+3)
 					if rng.Intn(2) == 0 {
-						m = 1 + rng.Intn(70)
+						m = interesting[rng.Intn(len(interesting))]
 					}
 					first, n, err := la.AllocateContiguous(m)
 					if err == nil {
@@ -925,8 +932,20 @@ func TestAllocator(t *testing.T) {
 						return
 					}
 					a := rng.Intn(len(h))
+					if rng.Intn(2) == 0 {
+						a = 0
+					}
 					b := a
-					for b+1 < len(h) && h[b+1] == h[b]+1 && rng.Intn(6) != 0 {
+					// half of the time the longest run, else a run of an
+					// interesting or a short random length
+					limit := len(h)
+					switch rng.Intn(4) {
+					case 0:
+						limit = interesting[rng.Intn(len(interesting))]
+					case 1:
+						limit = 1 + rng.Intn(8)
+					}
+					for b+1 < len(h) && h[b+1] == h[b]+1 && b-a+1 < limit {
 						b++
 					}
 					la.FreeContiguous(h[a], b-a+1)
